@@ -77,7 +77,15 @@ def ident(m):
 
 
 def mutate(m):
-    """What a sender does to its own object after send() returned."""
+    """What a sender does to its own object after send() returned (and what a receiver may do to the
+    message it was handed). Never raises: a message that is already corrupt is left to the oracle."""
+    try:
+        _mutate(m)
+    except Exception:
+        pass
+
+
+def _mutate(m):
     t = m.type
     if t in ('note_on', 'note_off'):
         m.note = (m.note + 1) % 128
